@@ -10,6 +10,7 @@ import (
 
 var sanitizer = strings.NewReplacer( // TODO
 	"\n", ``,
+	"\r", ``,
 	"\t", ``,
 	`'`, `\'`,
 )
